@@ -177,6 +177,8 @@ def run_cell(cell):
             return dict(assertions=out)
         S = FSet([c for c in cands if c != alt])
         try:
+            # a call with a different (empty) assertion set first, as in the replay: results must not carry over between calls
+            V.buildRemainingTreeAsLists(alt, FSet([c for c in cands if c != alt]), [], [])
             tree = V.buildRemainingTreeAsLists(alt, S, WOL, IRV)
             rendered = V.treeListToTuple(tree)
         except core.PathAbort:
